@@ -406,7 +406,11 @@ ASMJIT_FAVOR_SIZE Error init_func_detail(FuncDetail& func, const FuncSignature& 
               vec_pos++;
             }
             else {
-              uint32_t size = TypeUtils::size_of(type_id);
+              // Each argument occupies at least one register-sized slot and vectors are aligned to their size.
+              uint32_t size = Support::max<uint32_t>(TypeUtils::size_of(type_id), register_size);
+              if (TypeUtils::is_vec(type_id) && size >= 16u) {
+                stack_offset = Support::align_up(stack_offset, size);
+              }
               arg.assign_stack_offset(int32_t(stack_offset));
               stack_offset += size;
             }
